@@ -2,7 +2,7 @@
    (the same graph specs are replayed against the real binary from known_findings/C07.json). *)
 From Coq Require Import String Ascii.
 From Coq Require Import List Arith Bool.
-Require Import TT.Model.Str TT.Model.C07TypeParse TT.Model.Harvest TT.Model.C07Reach TT.Spec.C07Spec.
+Require Import TT.Model.Str TT.Model.C07TypeParse TT.Model.C07Harvest TT.Model.C07Reach TT.Spec.C07Spec.
 Import ListNotations.
 Local Open Scope string_scope.
 
